@@ -38,6 +38,34 @@ def _no_guards(stmts):
     return [s for s in stmts if not _is_guard(s)]
 
 
+def _pure(node):
+    """an expression that cannot have an effect we care about: no calls, no walrus, no await/yield, no lambda"""
+    return not any(isinstance(n, (ast.Call, ast.NamedExpr, ast.Await, ast.Yield, ast.YieldFrom, ast.Lambda))
+                   for n in ast.walk(node))
+
+
+def _local_assign(s, taken):
+    """`name = <expr>` to a fresh local name (not a parameter, not assigned before) -> name, else None"""
+    if isinstance(s, ast.Assign) and len(s.targets) == 1 and isinstance(s.targets[0], ast.Name) \
+            and s.targets[0].id not in taken and s.targets[0].id != 'self':
+        return s.targets[0].id
+    return None
+
+
+def _module_names(tree):
+    """names bound at module level (imports, classes, functions, assignments) plus the builtins the shapes rely on:
+    a local with such a name would change what `Function(...)`, `zip(...)` mean"""
+    out = {'zip', 'self', 'list', 'callable', 'isinstance', 'len'}
+    for n in tree.body:
+        if isinstance(n, (ast.Import, ast.ImportFrom)):
+            out |= {(al.asname or al.name).split('.')[0] for al in n.names}
+        elif isinstance(n, (ast.ClassDef, ast.FunctionDef)):
+            out.add(n.name)
+        elif isinstance(n, ast.Assign):
+            out |= {t.id for t in n.targets if isinstance(t, ast.Name)}
+    return out
+
+
 def _self_attr(node, attr=None):
     return (isinstance(node, ast.Attribute) and isinstance(node.value, ast.Name) and node.value.id == 'self'
             and (attr is None or node.attr == attr))
@@ -121,6 +149,20 @@ def strategy_descr(repo, items):
         raise TranslationError(REL, clo, 'the closure must take exactly one argument (got %s)' % ps)
     x = ps[0]
     body = body_wo_doc(clo)
+    # single-assignment local aliases `name = self.<attr>` inside the closure are read at every call, like
+    # self.<attr> itself (an alias bound OUTSIDE the closure would freeze the lists at build time: rejected below
+    # because _create_strategy may only contain the closure and its return)
+    alias = {}
+    rest = []
+    for st in body:
+        if (isinstance(st, ast.Assign) and len(st.targets) == 1 and isinstance(st.targets[0], ast.Name)
+                and _self_attr(st.value) and not any(isinstance(b, ast.For) for b in rest)):
+            if st.targets[0].id in alias or st.targets[0].id in _module_names(tree):
+                raise TranslationError(REL, st, 'alias `%s` assigned twice or shadows a module-level name' % st.targets[0].id)
+            alias[st.targets[0].id] = st.value
+        else:
+            rest.append(st)
+    body = rest
     if len(body) != 3:
         raise TranslationError(REL, clo, 'closure body must be: init; for-loop; return (got %d statements)' % len(body))
     init, loop, ret = body
@@ -141,14 +183,17 @@ def strategy_descr(repo, items):
         raise TranslationError(REL, loop, 'loop target must be a pair of names')
     it = loop.iter
     if not (isinstance(it, ast.Call) and isinstance(it.func, ast.Name) and it.func.id == 'zip'
-            and len(it.args) == 2 and not it.keywords and all(_self_attr(a) for a in it.args)):
+            and len(it.args) == 2 and not it.keywords):
         raise TranslationError(REL, loop, 'loop must iterate over zip(self.functions, self.weights)')
-    bound = {it.args[0].attr: t.elts[0].id, it.args[1].attr: t.elts[1].id}
+    zargs = [alias[a.id] if isinstance(a, ast.Name) and a.id in alias else a for a in it.args]
+    if not all(_self_attr(a) for a in zargs):
+        raise TranslationError(REL, loop, 'loop must iterate over zip(self.functions, self.weights)')
+    bound = {zargs[0].attr: t.elts[0].id, zargs[1].attr: t.elts[1].id}
     if set(bound) != {'functions', 'weights'}:
         raise TranslationError(REL, loop, 'zip must pair self.functions with self.weights (got %s)' % sorted(bound))
     f, w = bound['functions'], bound['weights']
-    if len({f, w, z, x}) != 4:
-        raise TranslationError(REL, loop, 'names of accumulator, argument, function and weight must be distinct')
+    if len({f, w, z, x} | set(alias)) != 4 + len(alias):
+        raise TranslationError(REL, loop, 'names of accumulator, argument, function, weight and aliases must be distinct')
     env = {'acc': z, 'w': w, 'f': f, 'x': x}
     if len(loop.body) != 1:
         raise TranslationError(REL, loop, 'loop body must be a single update of `%s`' % z)
@@ -221,7 +266,12 @@ def build_shape(repo, items):
     if ps != ['functions', 'weights']:
         raise TranslationError(REL, init, '__init__ must take (functions, weights), got %s' % ps)
     seen = []
+    ilocals = set()
     for s in _no_guards(body_wo_doc(init)):
+        nm = _local_assign(s, set(ps) | ilocals | _module_names(tree))
+        if nm is not None and _pure(s.value):
+            ilocals.add(nm)              # a pure temporary (e.g. for a log message): no effect on the object
+            continue
         if isinstance(s, ast.Assign) and len(s.targets) == 1 and _self_attr(s.targets[0]) \
                 and isinstance(s.value, ast.Name) and s.targets[0].attr == s.value.id and s.value.id in ps:
             seen.append(s.value.id)
@@ -239,16 +289,38 @@ def build_shape(repo, items):
         raise TranslationError(REL, build, '_build must take the list of callables')
     fl = bps[0]
     got = {}
+    pure_locals = {}      # name -> expression without calls (aliases, values gathered for a log message)
+    pending = {}          # name -> (expression with a call, had the components been wrapped when it was evaluated?)
+
+    def resolve(n):
+        """follow pure single-assignment aliases `a = b`"""
+        hops = 0
+        while isinstance(n, ast.Name) and n.id in pure_locals and hops < 10:
+            n = pure_locals[n.id]
+            hops += 1
+        return n
     for s in _no_guards(body_wo_doc(build)):
+        nm = _local_assign(s, set(bps) | set(pure_locals) | set(pending) | _module_names(tree))
+        if nm is not None:
+            if _pure(s.value):
+                pure_locals[nm] = s.value
+            else:
+                pending[nm] = (s.value, 'functions' in got)     # must be stored into self.<attr> below
+            continue
         if not (isinstance(s, ast.Assign) and len(s.targets) == 1 and _self_attr(s.targets[0])):
             raise TranslationError(REL, s, '_build: unexpected statement `%s`' % src_of(src, s)[:80])
         a = s.targets[0].attr
         v = s.value
+        wrapped_before = 'functions' in got
+        if isinstance(v, ast.Name) and v.id in pending:
+            v, wrapped_before = pending.pop(v.id)               # evaluated where the local was assigned
+        else:
+            v = resolve(v)
         if a == 'functions':
             ok = (isinstance(v, ast.ListComp) and len(v.generators) == 1 and not v.generators[0].ifs
                   and not v.generators[0].is_async
-                  and isinstance(v.generators[0].target, ast.Name) and isinstance(v.generators[0].iter, ast.Name)
-                  and v.generators[0].iter.id == fl and isinstance(v.elt, ast.Call)
+                  and isinstance(v.generators[0].target, ast.Name) and isinstance(resolve(v.generators[0].iter), ast.Name)
+                  and resolve(v.generators[0].iter).id == fl and isinstance(v.elt, ast.Call)
                   and ast.unparse(v.elt.func) == 'Function')
             if ok:
                 e, g = v.elt, v.generators[0].target.id
@@ -258,7 +330,7 @@ def build_shape(repo, items):
             if not ok:
                 raise TranslationError(REL, s, '_build must wrap every callable, in order: [Function(pointer=f) for f in %s]' % fl)
         elif a == 'pointer':
-            if 'functions' not in got:
+            if not wrapped_before:
                 raise TranslationError(REL, s, 'strategy created before the components are wrapped')
             if not (isinstance(v, ast.Call) and _self_attr(v.func, '_create_strategy') and not v.args and not v.keywords):
                 raise TranslationError(REL, s, 'self.pointer must be the closure returned by self._create_strategy()')
@@ -270,6 +342,8 @@ def build_shape(repo, items):
         if a in got:
             raise TranslationError(REL, s, 'self.%s assigned twice in _build' % a)
         got[a] = s.lineno
+    if pending:
+        raise TranslationError(REL, build, '_build: local(s) %s hold the result of a call that is never stored' % sorted(pending))
     if set(got) != {'functions', 'pointer', 'built'}:
         raise TranslationError(REL, build, '_build must set functions, pointer and built (saw %s)' % sorted(got))
     # `Function` must be the core class
